@@ -326,6 +326,7 @@ ORDER = {"accept": 0, "socket": 1, "socketpair": 1, "fork": 2, "connect": 2, "so
 
 
 def canon(ls):
+    ls = [l for l in ls if not l.startswith("I ")]      # harness-only identity lines
     ys = [l for l in ls if l.startswith("Y ")]
 
     def key(l):
